@@ -45,7 +45,7 @@ using namespace nodesim;
 namespace {
 
 enum AOp { A_NEW = 0, A_CHANGE, A_RESERVE, A_KEEP, A_RETURN, A_TOPUP, A_RESTART, A_PAY, A_CRASH, A_CLOCK, A_NOPS,
-           A_IOFAULT = 20 /* exploratory, never generated: see OpIoFault */ };
+           A_IOFAULT = 20 /* exploratory, never generated: see OpIoFault */, A_ENCLOCK = 21 };
 
 const char* kTypeName[4] = {"legacy", "p2sh-segwit", "bech32", "bech32m"};
 const char* kSelName[4] = {"uniform", "sync/unlink/truncate boundary", "inside address call", "at return of address call"};
@@ -68,6 +68,7 @@ std::string Describe(const Op& op)
                  op.arg(0) & 1 ? "continue on the image (next incarnation)" : "probe the image");
         break;
     case A_CLOCK: snprintf(b, sizeof b, "clock += %lds", (long)op.arg(0)); break;
+    case A_ENCLOCK: snprintf(b, sizeof b, "encryptwallet (first time) and lock: addresses now come from the pre-derived keypool only"); break;
     case A_IOFAULT: snprintf(b, sizeof b, "FAULT (exploratory) %s at the %ld-th next write/sync of the wallet files", op.mod(0, 3) == 0 ? "ENOSPC on write" : op.mod(0, 3) == 1 ? "EIO on write" : "EIO on fsync", (long)op.arg(1)); break;
     default: snprintf(b, sizeof b, "?");
     }
@@ -123,6 +124,14 @@ Plan Gen(uint64_t seed, Tier tier)
         p.ops.push_back(op);
         // the situation the property is about: a crash placed inside / right at the end of the address call that just ran
         if ((op.kind == A_NEW || op.kind == A_CHANGE || op.kind == A_RETURN) && !p.knobs["enumerate"] && rng.chance(1, 4)) p.ops.push_back(CrashOp(true));
+    }
+    // drawn last: a blank wallet with imported descriptors whose last derivation step is hardened (the shape of every migrated legacy
+    // wallet: extending the keypool needs the private keys), encrypted and locked somewhere in the first half of the history
+    p.knobs["hardened"] = rng.chance(1, 5);
+    if (p.knobs["hardened"]) {
+        Op e;
+        e.kind = A_ENCLOCK;
+        p.ops.insert(p.ops.begin() + rng.below(p.ops.size() / 2 + 1), e);
     }
     return p;
 }
@@ -518,8 +527,25 @@ struct AddrSim {
         StartWalletNode();
         WalletCreateOpts co;
         co.seed = (uint64_t)ctx.knob("wallet_seed", 1);
+        const bool hardened = ctx.knob("hardened", 0) != 0;
+        co.blank = hardened;
         w = wn->CreateWallet(wname, co);
         if (!w) ctx.failf("wallet-create-failed", "%s", wn->last_error.c_str());
+        if (hardened) {
+            unsigned char seed[32];
+            for (int i = 0; i < 32; ++i) seed[i] = (unsigned char)(mix64(co.seed, 0x6864 + i) & 0xff);
+            CExtKey master;
+            master.SetSeed(MakeByteSpan(seed));
+            const std::string x = EncodeExtKey(master);
+            static const char* kFmt[4][2] = {{"pkh(", ")"}, {"sh(wpkh(", "))"}, {"wpkh(", ")"}, {"tr(", ")"}};
+            static const int kPurpose[4] = {44, 49, 84, 86};
+            for (int t = 0; t < 4; ++t)
+                for (int c = 0; c < 2; ++c) {
+                    std::string d = std::string(kFmt[t][0]) + x + "/" + std::to_string(kPurpose[t]) + "h/1h/0h/" + std::to_string(c) + "/*h" + kFmt[t][1];
+                    if (!wn->ImportDescriptor(*w, d, /*active=*/true, /*internal=*/c == 1, 0, keypool, 0, /*timestamp=*/1)) ctx.failf("sim-import-failed", "%s", wn->last_error.c_str());
+                }
+            ctx.probe("wallet_with_hardened_range_descriptors");
+        }
         // crash points start here: the one-time creation of the wallet file is outside the property
         k0 = enum_from = simfs::LogSize();
         if (simfs::OpsFromOtherThreads()) ctx.failf("sim-io-from-other-thread", "%lu recorded operations came from another thread", (unsigned long)simfs::OpsFromOtherThreads());
@@ -652,6 +678,16 @@ struct AddrSim {
             unsigned after = WITH_LOCK(w->cs_wallet, return w->GetKeyPoolSize());
             if (after > before) ctx.probe("keypool_topup_extended_range");
             ctx.evf("topup %ld -> %d pool %u->%u io=%zu", (long)op.arg(0), (int)ok, before, after, simfs::LogSize() - k0);
+            break;
+        }
+        case A_ENCLOCK: {
+            if (!w->HasEncryptionKeys()) {
+                SecureString pass{"correct horse"};
+                if (!wn->Encrypt(*w, pass)) ctx.failf("sim-encrypt-failed", "EncryptWallet returned false");
+                ctx.probe("wallet_encrypted");
+            }
+            w->Lock();
+            ctx.evf("encrypted and locked io=%zu", simfs::LogSize() - k0);
             break;
         }
         case A_RESTART: CleanRestart((int)op.arg(0)); break;
